@@ -257,3 +257,14 @@ Theorem tryselect_never_blocks_refuted :
                xtpc th = TTry2W 0 /\ xpark th = Some (OnChan 0) /\ xslots th = [0%N; 0%N].
 Proof. exact w_tryselect_blocks_ex. Qed.
 Print Assumptions tryselect_never_blocks_refuted.
+
+(* (3) a sending select and a receiving select on one unbuffered channel, where the receiver
+   also has a send case on a channel with a lower address: it probes its sends first and
+   then calls chanTryRecv with acceptSelectSend = false; nobody arms the hand-off *)
+Theorem select_sendfirst_receiver_stuck_refuted :
+  exists caps progs sc, let s := x_run sc (x_init caps progs) in
+    progs = [[XSelect [CRecv 1; CSend 0 12%N]]; [XSelect [CSend 1 15%N; CSend 1 16%N]]] /\ caps = [0;0]%nat /\
+    (forall th, In th (xths s) -> x_enabled th = false) /\
+    map xtpc (xths s) = [SWaitW; SWaitW] /\ map xout (xths s) = [[]; []].
+Proof. exact w_sendfirst_ex. Qed.
+Print Assumptions select_sendfirst_receiver_stuck_refuted.
